@@ -155,7 +155,7 @@ def run(ctx):
         ks = _dict_keys(f.node)
         sup = find_stmt("$$d = super().get_result_dictionary()", f.node)
         rets = [n for n in walk_no_nested(f.node) if isinstance(n, ast.Return)]
-        ctx.ob("R-SIB", "C19.4", f, f"result dictionary extends the base one and provides {sorted(keys)}", len(sup) == 1 and keys <= ks and len(rets) == 1 and src(rets[0].value) == src(sup[0][1]["d"]), f"keys {sorted(ks)}")
+        ctx.ob("R-SIB", "C19.4", f, f"result dictionary extends the base one and provides {sorted(keys)}", len(sup) == 1 and keys <= (ks | bkeys) and len(rets) == 1 and src(rets[0].value) == src(sup[0][1]["d"]), f"keys {sorted(ks)} (+ the base keys)")
     gd = find_stmt("$$d = self.ns.get_result_dictionary()", sr.node)
     ps = find_stmt("$$d['posterior_samples'] = self.posterior_samples", sr.node, gd[0][1] if gd else None)
     ctx.ob("R-SIB", "C19.4", sr, "save_results writes the sampler's result dictionary plus the posterior samples", len(ps) == 1 and len(gd) == 1, "")
